@@ -427,6 +427,8 @@ class Case:
         self.spec = spec
         self.backend = spec.get('backend', 'dict')
         self.rng = random.Random(spec.get('seed', 0))
+        self.rng_peer = random.Random(spec.get('seed', 0) * 31 + 7)
+        self.npeer = 0
         self.viol: list[dict[str, Any]] = []
         self.cnt: Counter[str] = Counter()
         self.boxes: dict[bytes, list[Msg]] = {INBOX: [], OTHER: []}
@@ -882,6 +884,10 @@ class Case:
         self.sig.append('%s/%s/%s%s' % (
             op.get('name', verb), shape, op.get('mode', ''),
             's' if op.get('silent') else ''))
+        if verb == 'FETCH' and self.sel is not None \
+                and self.boxes[self.sel] and 'cmds' not in self.spec \
+                and self.rng_peer.random() < 0.2:
+            await self.peer_edit()
         self.boxes_pre = list(self.boxes[self.sel]) if self.sel else []
         self.step_failed = False
         r = await self.send(line)
@@ -1920,6 +1926,32 @@ class Case:
 
     # -- driver -----------------------------------------------------------------
 
+    async def peer_edit(self) -> None:
+        """Another connection changes flags in the selected mailbox right
+        before the next command of the session under test (nothing of that
+        session runs in between, so whatever it cached is stale now).  The
+        model takes the result from the probe's dump."""
+        box = self.sel
+        assert box is not None
+        rng = self.rng_peer
+        self.npeer += 1
+        peer = await self.connect(self.env, 10 + self.npeer)
+        r = await self.send(b'SELECT ' + box, peer)
+        if r.ok:
+            mode = rng.choice([b'-FLAGS.SILENT', b'-FLAGS.SILENT',
+                               b'+FLAGS.SILENT', b'FLAGS.SILENT'])
+            fl = rng.choice([b'\\Seen', b'\\Seen', b'\\Seen \\Flagged',
+                             b'\\Answered', b'\\Draft \\Seen'])
+            sset = rng.choice([b'1:*', b'1', b'*'])
+            await self.send(b'STORE ' + sset + b' ' + mode + b' (' + fl +
+                            b')', peer)
+            self.cnt['peer_edits'] += 1
+        peer.feed(b'zz LOGOUT\r\n')
+        await peer.wait_closed()
+        rows = await self.dump_probe(box)
+        if len(rows) == len(self.boxes[box]):
+            self.adopt(box, rows)
+
     async def connect(self, env: Any, cid: int) -> Conn:
         c = Conn(cid, Sched())
         c.start(env.imap)
@@ -1938,6 +1970,7 @@ class Case:
         env = await make_env(self.backend, {'u1': 'pw1'})
         try:
             try:
+                self.env = env
                 self.conn = await self.connect(env, 1)
                 r = await self.send(b'CREATE Other')
                 if not r.ok:
